@@ -75,6 +75,37 @@ IMPL_PROGRAMS = [
 ]
 
 
+# generic parameters spelled as raw identifiers (what `cargo fix --edition` leaves behind): the field types mention them, and
+# the `FieldType: Trait` predicate is what makes the impl compile ([u8; N]: Default does not hold for every N)
+RAW_PARAM_PROGRAMS = [
+    ('#[derive_ex(Default)] struct X<const r#N: usize> { data: [u8; r#N] }',
+     '#[::derive_ex::derive_ex(Default)]\npub struct X<const r#N: usize> { pub data: [u8; r#N] }\npub fn run() {}'),
+    ('#[derive(Ex)] #[derive_ex(Default, Clone)] struct X<const r#K: usize>(Tag<r#K>);   [Tag<K>: Default / Clone for K = 0 only]',
+     'pub struct Tag<const K: usize>;\nimpl Default for Tag<0> { fn default() -> Self { Tag } }\nimpl Clone for Tag<0> { fn clone(&self) -> Self { Tag } }\n'
+     '#[derive(::derive_ex::Ex)]\n#[derive_ex(Default, Clone)]\npub struct X<const r#K: usize>(pub Tag<r#K>);\npub fn run() {}'),
+    ('#[derive_ex(Default, Debug, PartialEq)] enum E<r#T, const r#IN: usize> { #[default] A(r#T, [r#T; r#IN]), B }',
+     '#[::derive_ex::derive_ex(Default, Debug, PartialEq)]\npub enum E<r#T, const r#IN: usize> { #[default] A(r#T, [r#T; r#IN]), B }\npub fn run() {}'),
+    ('#[derive_ex(Default)] struct X<const N: usize>([u8; r#N]);   [declared plain, used raw]',
+     '#[::derive_ex::derive_ex(Default)]\npub struct X<const N: usize>(pub [u8; r#N]);\npub fn run() {}'),
+    ('#[derive_ex(Default)] struct X<const r#N: usize>([u8; N]);   [declared raw, used plain]',
+     '#[::derive_ex::derive_ex(Default)]\npub struct X<const r#N: usize>(pub [u8; N]);\npub fn run() {}'),
+    ('#[derive_ex(Default, Hash)] struct X<r#T>(Opt<r#T>, Opt<T>);   [Opt<T>: Default only for u8]',
+     'pub struct Opt<T>(pub Option<T>);\nimpl Default for Opt<u8> { fn default() -> Self { Opt(None) } }\nimpl ::core::hash::Hash for Opt<u8> { fn hash<H: Hasher>(&self, _: &mut H) {} }\n'
+     '#[::derive_ex::derive_ex(Default, Hash)]\npub struct X<r#T>(pub Opt<r#T>, pub Opt<T>);\npub fn run() {}'),
+]
+
+
+# KNOWN FINDING (known_findings.json): the generic parameters of the item are declared again, with the user's spans, by every
+# generated impl - outside the scope of an `#[allow(..)]` written on the item, so a parameter with an unconventional name
+# draws the naming lint from derive_ex's impls although the item silences it (the standard derive draws none)
+PARAM_NAME_LINT_PROGRAMS = [
+    ('#[allow(non_upper_case_globals)] #[derive_ex(Clone)] struct Y<const nn: usize>([u8; nn]);',
+     '#[allow(non_upper_case_globals)]\n#[::derive_ex::derive_ex(Clone)]\npub struct Y<const nn: usize>(pub [u8; nn]);\npub fn run() {}'),
+    ('#[allow(non_camel_case_types)] #[derive(Ex)] #[derive_ex(Clone)] struct Y<t>(t);',
+     '#[allow(non_camel_case_types)]\n#[derive(::derive_ex::Ex)]\n#[derive_ex(Clone)]\npub struct Y<t>(pub t);\npub fn run() {}'),
+]
+
+
 class C20(Prop):
     pid = 'C20'
     tag = 'all generated impls'
@@ -302,6 +333,8 @@ class C20(Prop):
         # operators derived from an `impl` whose operand is a reference with an explicit, load-bearing lifetime
         for k, (text, src) in enumerate(IMPL_PROGRAMS):
             mods.append(l2.Module(4 * 10 ** 6 + k, src, _Lit(text)))
+        for k, (text, src) in enumerate(RAW_PARAM_PROGRAMS + PARAM_NAME_LINT_PROGRAMS):
+            mods.append(l2.Module(5 * 10 ** 6 + k, src, _Lit(text)))
         nb = max(1, min(R.NPROC, len(mods) // 40 + 1))
         batches = [('c20_%d' % k, mods[k::nb]) for k in range(nb)]
         l2.compile_parallel(batches, prelude=PRELUDE, check_only=True, crate_attrs=CRATE_ATTRS)
